@@ -18,6 +18,7 @@ import (
 	corev1 "k8s.io/api/core/v1"
 	apiequality "k8s.io/apimachinery/pkg/api/equality"
 	metav1 "k8s.io/apimachinery/pkg/apis/meta/v1"
+	"k8s.io/apimachinery/pkg/types"
 	"k8s.io/apimachinery/pkg/watch"
 	kubefake "k8s.io/client-go/kubernetes/fake"
 	ktesting "k8s.io/client-go/testing"
@@ -98,7 +99,13 @@ func makeEvent(i int, t watch.EventType) watch.Event {
 	if t == watch.Error {
 		return watch.Event{Type: t, Object: &metav1.Status{Status: metav1.StatusFailure, Code: 410, Reason: metav1.StatusReasonExpired, Message: fmt.Sprintf("too old resource version %d", i)}}
 	}
-	s := &asv1.StatefulSet{ObjectMeta: metav1.ObjectMeta{Name: fmt.Sprintf("s%d", i), Namespace: "ns", ResourceVersion: fmt.Sprint(100 + i)}}
+	// every third event is about the same object at the same resourceVersion as the event before it, with other
+	// content (clientsets backed by an object tracker never bump the version; a Deleted event carries the last one)
+	id := i
+	if i%3 == 2 {
+		id = i - 1
+	}
+	s := &asv1.StatefulSet{ObjectMeta: metav1.ObjectMeta{Name: fmt.Sprintf("s%d", id), Namespace: "ns", UID: types.UID(fmt.Sprintf("uid-%d", id)), ResourceVersion: fmt.Sprint(100 + id)}}
 	if t != watch.Bookmark {
 		r := int32(i)
 		s.Spec.Replicas = &r
